@@ -494,6 +494,18 @@ func init() {
 				l := fmt.Sprintf("%s.c%d", lab, i)
 				nrm := v3(gen.Dir2(g.t, l+".n").Scale(gen.LogF(g.t, 0.1, 10, l+".len")))
 				d := gen.F(g.t, 0.05, 1, l+".d") * h.Norm()
+				if rapid.IntRange(0, 2).Draw(g.t, l+".corner") == 0 {
+					corner := v3(c)
+					for a := 0; a < 2; a++ {
+						corner[a] += h[a] * float64(2*rapid.IntRange(0, 1).Draw(g.t, l+".cs")-1)
+					}
+					if nrm.Dot(corner.Sub(v3(c))) < 0 {
+						nrm = nrm.Scale(-1)
+					}
+					n.P = append(n.P, nrm)
+					n.F = append(n.F, nrm.Dot(corner))
+					continue
+				}
 				n.P = append(n.P, nrm)
 				n.F = append(n.F, nrm.Dot(v3(c))+d*nrm.Norm())
 			}
